@@ -35,7 +35,32 @@ CLAIMED['C05'] = (
     'Every link of every planner is covered either by the steer discipline (new state = target when d <= max_distance, interpolate(near, target, max_distance/d) only on the d > max_distance edge, d the distance between exactly near and target, max_distance the public field unmodified, link made to that same near node) or by a dominating distance(x,y) < R comparison on exactly its end points with R a public radius field; RRT* neighbour lists are summarised through find_neighbours. Decides the discipline the metric bound rests on, not the metric bound itself.',
     'Trusted: rustc MIR, mirfacts; assumes d(a, interpolate(a,b,t)) = t d(a,b) (C10) and symmetric distance (C09).',
     'DESIGN.md section 4, C05')
-NOT_BUILT = ['C02', 'C06', 'C08', 'C13', 'C15', 'C16', 'C17', 'C18', 'C19']
+CLAIMED['C02'] = (
+    'clear-before-reroot ordering + root provenance + dominating goal query on the terminal node over MIR',
+    'For every history of setup / problem replacement: each function that stores a problem definition reads it only after the store, clears every tree container before pushing exactly one parentless root per container whose origin is start_states[..] (or a goal sample) of the stored problem; roadmap planners clear the roadmap in setup, leave it untouched when the problem is replaced and store no start-derived state; every non-root push has a parent; every Ok is dominated by the goal predicate on the state of the terminal node handed to path extraction (index of the node just pushed, index returned by the extension helper under the selecting flag, membership in a list filled only under the goal predicate, or the goal-sampled root); extracted paths are non-empty. Vector ordering is left to the existing tests.',
+    'Trusted: rustc MIR, mirfacts; S: Clone value preserving; sample_goal contract.',
+    'DESIGN.md section 4, C02')
+CLAIMED['C15'] = (
+    'per-write inductive invariant rules over MIR (index provenance, growth-only containers, strict rewiring guard)',
+    'The structural half of the tree invariant, which is an invariant of each write and therefore holds for every reachable tree: parent indices written at push time come from a scan of the same container made before the push (so parent < child); re-parenting an existing node is guarded by a strict `<` between cost_fn(node, new parent) and the node\'s recorded cost (an ancestor can never strictly improve through a descendant); outside setup/new node containers are only pushed to; stored node states are never written; path extraction follows parent links and stops at the parentless node. Validity, resolution and step bound of every node/edge are C01.admit / C03.link / C05, which range over all writes.',
+    'Trusted: rustc MIR, mirfacts; assumes non-negative distance (C09) and C17.cost.',
+    'DESIGN.md section 4, C15')
+CLAIMED['C16'] = (
+    'arg-min scan recognition, branch-polarity facts, per-iteration push counting on the loop DAG over MIR',
+    'Per-iteration transition shape for every iteration of every run: the node steered from is the arg-min of distance(tree[i], target) over the whole tree (index-0 seed, scan from <=1 to len, strict `<` update, running minimum updated together with the index and equal to the step-ratio divisor); at most one push per container along any acyclic path through the main loop (helpers summarised; the two RRT-Connect operands are distinct trees in every arm); sample_goal sits on the true edge and sample_uniform on the false edge of random_bool(self.goal_bias); RRT-Connect grows the tree that is not larger, connects the other tree to the node just added and joins the branches only on Reached. Steer and invalid-adds-nothing are C05.steer and C01.admit.',
+    'Trusted: rustc MIR, mirfacts; Rng::random_bool(p) semantics.',
+    'DESIGN.md section 4, C16')
+CLAIMED['C17'] = (
+    'cost-function shape recognition + paired-definition (cost, parent) matching + sibling rng-signature comparison over MIR',
+    'RRT* bookkeeping discipline: cost_fn(child, parent) = parent.cost + distance(child.state, parent.state); every stored cost is cost_fn(that node, that node\'s parent) and each cost definition is paired with a parent-index definition made under the same conditions for the same parent (push and rewire); neighbour candidates come from the summarised neighbour list of the new state and replace the best only when cheaper; existing nodes are written only with cost and parent together, for neighbours of the new node; RRT and RRT* consume the generator in the same order with the same bias and step fields. "No longer than RRT" is a numeric consequence and is not decided.',
+    'Trusted: rustc MIR, mirfacts; non-negative distance (C09); motion-check half of each link is C03.link.',
+    'DESIGN.md section 4, C17')
+CLAIMED['C18'] = (
+    'post-dominance / guard-signature pairing of graph writes and BFS discipline rules over MIR',
+    'Structural invariants of PRM: the milestone push is confined to and post-dominates the accept edge of the validity query on the sample; each forward edge has exactly one mirror edge recorded under the same conditions for the same index, written from the node just pushed, indices come from a 0..len scan made before the push; roadmap links are radius- and motion-guarded (C05.radius, C03.link re-run); a non-empty roadmap makes construct_roadmap return Ok(()) without writes; the query uses a FIFO, marks and records the parent at enqueue (parent = dequeued node, roots None), enqueues unvisited neighbours of the dequeued node and tests the goal on the dequeued index; replacing the problem writes only the problem definition. Completeness / hop-minimality follow by the textbook BFS argument from these premises.',
+    'Trusted: rustc MIR, mirfacts; textbook BFS theorem; fields private (compile-fail witness in thorough tier).',
+    'DESIGN.md section 4, C18')
+NOT_BUILT = ['C06', 'C08', 'C13', 'C19']
 for p in NOT_BUILT:
     if p not in CLAIMED:
         NOT_APPLICABLE[p] = 'not built yet (static rule designed in DESIGN.md section 4; moved to claimed when its check exists)'
